@@ -403,8 +403,114 @@ func (a tokAlt) String() string {
 	return fmt.Sprintf("split(%q)[%d]", a.sep, a.k)
 }
 
+// tokEnv evaluates results of a face-token parser; helpers of the same package
+// the parser delegates to (one per notation, an index parser, …) are followed
+// up to three levels, their string parameters bound to the piece of the token
+// the caller passes.
+type tokEnv struct {
+	bind  map[*ssa.Parameter]tokAlt
+	depth int
+}
+
 // tokenAlternatives: the ways result value v of a face-token parser is computed.
 func tokenAlternatives(v ssa.Value, seen map[ssa.Value]bool) []tokAlt {
+	return (&tokEnv{bind: map[*ssa.Parameter]tokAlt{}}).alts(v, seen)
+}
+
+// piece classifies a string expression as (part of) the token.
+func (e *tokEnv) piece(s ssa.Value) tokAlt {
+	for {
+		cc, ok := s.(*ssa.Call)
+		if ok && isPkgFunc(calleeOf(cc), "strings", "TrimSpace") {
+			s = cc.Call.Args[0]
+			continue
+		}
+		break
+	}
+	if p, ok := s.(*ssa.Parameter); ok {
+		if b, ok := e.bind[p]; ok {
+			return b
+		}
+		return tokAlt{whole: true}
+	}
+	if ld, ok := isLoad(s); ok {
+		if ia, ok := ld.X.(*ssa.IndexAddr); ok {
+			if k, ok := constInt(ia.Index); ok {
+				if sc, ok := ia.X.(*ssa.Call); ok && isPkgFunc(calleeOf(sc), "strings", "Split") {
+					if sep, ok := constStr(sc.Call.Args[1]); ok {
+						src := e.piece(sc.Call.Args[0])
+						switch {
+						case src.bad != "":
+							return src
+						case !src.whole:
+							return tokAlt{bad: "a piece of the token is split again"}
+						}
+						return tokAlt{sep: sep, k: k}
+					}
+				}
+			}
+		}
+	}
+	return tokAlt{bad: "piece of the token not recognised"}
+}
+
+// successful: the return can be a success — its error is the constant nil, or the
+// error forwarded from a helper of the same package (whose own successes count).
+func successfulReturn(r *ssa.Return) bool {
+	if len(r.Results) < 2 {
+		return false
+	}
+	last := r.Results[len(r.Results)-1]
+	if !types.Identical(last.Type(), types.Universe.Lookup("error").Type()) {
+		return false
+	}
+	if c, ok := last.(*ssa.Const); ok {
+		return c.Value == nil
+	}
+	if ex, ok := last.(*ssa.Extract); ok {
+		if hc, ok := ex.Tuple.(*ssa.Call); ok {
+			if h := hc.Call.StaticCallee(); h != nil && h.Blocks != nil && r.Parent() != nil && h.Pkg == r.Parent().Pkg {
+				return true
+			}
+		}
+	}
+	return false
+}
+
+// helperAlts: alternatives of result #idx of a call to a same-package helper.
+func (e *tokEnv) helperAlts(c *ssa.Call, idx int) []tokAlt {
+	h := c.Call.StaticCallee()
+	if h == nil || h.Blocks == nil || c.Parent() == nil || h.Pkg != c.Parent().Pkg {
+		return []tokAlt{{bad: "not derived from strconv.Atoi"}}
+	}
+	if e.depth >= 3 {
+		return []tokAlt{{bad: "helper chain deeper than three levels"}}
+	}
+	sub := &tokEnv{bind: map[*ssa.Parameter]tokAlt{}, depth: e.depth + 1}
+	for i, p := range h.Params {
+		if b, ok := p.Type().Underlying().(*types.Basic); ok && b.Kind() == types.String {
+			if a := callArg(c, i); a != nil {
+				sub.bind[p] = e.piece(a)
+			}
+		}
+	}
+	var out []tokAlt
+	n := 0
+	liveInstrs(h, func(in ssa.Instruction) {
+		r, ok := in.(*ssa.Return)
+		if !ok || idx >= len(r.Results) || !successfulReturn(r) {
+			return
+		}
+		n++
+		out = append(out, sub.alts(r.Results[idx], map[ssa.Value]bool{})...)
+	})
+	if n == 0 {
+		return []tokAlt{{bad: "helper " + shortFn(h) + " has no successful return"}}
+	}
+	return out
+}
+
+func (e *tokEnv) alts(v ssa.Value, seen map[ssa.Value]bool) []tokAlt {
 	v = stripConv(v)
 	if seen[v] {
 		return nil
@@ -412,8 +518,8 @@ func tokenAlternatives(v ssa.Value, seen map[ssa.Value]bool) []tokAlt {
 	seen[v] = true
 	if ph, ok := v.(*ssa.Phi); ok {
 		var out []tokAlt
-		for _, e := range ph.Edges {
-			out = append(out, tokenAlternatives(e, seen)...)
+		for _, ed := range ph.Edges {
+			out = append(out, e.alts(ed, seen)...)
 		}
 		return out
 	}
@@ -429,40 +535,27 @@ func tokenAlternatives(v ssa.Value, seen map[ssa.Value]bool) []tokAlt {
 		return []tokAlt{{bad: "not parsed-number + const: " + l.String()}}
 	}
 	ex, ok := a.(*ssa.Extract)
-	if !ok || ex.Index != 0 {
+	if !ok {
 		return []tokAlt{{bad: "not derived from strconv.Atoi"}}
 	}
 	pc, ok := ex.Tuple.(*ssa.Call)
-	if !ok || !(isPkgFunc(calleeOf(pc), "strconv", "Atoi") || isPkgFunc(calleeOf(pc), "strconv", "ParseInt")) {
+	if !ok {
+		return []tokAlt{{bad: "not derived from strconv.Atoi"}}
+	}
+	if !(isPkgFunc(calleeOf(pc), "strconv", "Atoi") || isPkgFunc(calleeOf(pc), "strconv", "ParseInt")) {
+		// a helper of the package: its own results already carry the −1
+		if c != 0 {
+			return []tokAlt{{bad: fmt.Sprintf("result of a helper adjusted by %+d", c)}}
+		}
+		return e.helperAlts(pc, ex.Index)
+	}
+	if ex.Index != 0 {
 		return []tokAlt{{bad: "not derived from strconv.Atoi"}}
 	}
 	if c != -1 {
 		return []tokAlt{{bad: fmt.Sprintf("index used as parsed value %+d: OBJ indices are 1-based, the reader must subtract exactly 1", c)}}
 	}
-	s := pc.Call.Args[0]
-	for {
-		cc, ok := s.(*ssa.Call)
-		if ok && isPkgFunc(calleeOf(cc), "strings", "TrimSpace") {
-			s = cc.Call.Args[0]
-			continue
-		}
-		break
-	}
-	if _, ok := s.(*ssa.Parameter); ok {
-		return []tokAlt{{whole: true}}
-	}
-	if ld, ok := isLoad(s); ok {
-		if ia, ok := ld.X.(*ssa.IndexAddr); ok {
-			if k, ok := constInt(ia.Index); ok {
-				if sc, ok := ia.X.(*ssa.Call); ok && isPkgFunc(calleeOf(sc), "strings", "Split") {
-					if sep, ok := constStr(sc.Call.Args[1]); ok {
-						return []tokAlt{{sep: sep, k: k}}
-					}
-				}
-			}
-		}
-	}
-	return []tokAlt{{bad: "piece of the token not recognised"}}
+	return []tokAlt{e.piece(pc.Call.Args[0])}
 }
 
 // grammar: which pieces of a face token may feed which slot.
@@ -917,7 +1010,6 @@ func sentinelGuarded(b *ssa.BasicBlock, idx ssa.Value) bool {
 // tokR: the parser's successful returns map token pieces to slots per the OBJ grammar.
 func (x *ctx) tokR(g *ssa.Function, pu *parserUse, ctl bool) {
 	name := x.P.FuncName(g)
-	errT := types.Universe.Lookup("error").Type()
 	alts := map[int]map[string]bool{}
 	bad := map[int]string{}
 	nRet := 0
@@ -926,11 +1018,7 @@ func (x *ctx) tokR(g *ssa.Function, pu *parserUse, ctl bool) {
 		if !ok || len(r.Results) < 2 {
 			return
 		}
-		last := r.Results[len(r.Results)-1]
-		if !types.Identical(last.Type(), errT) {
-			return
-		}
-		if c, ok := last.(*ssa.Const); !ok || c.Value != nil {
+		if !successfulReturn(r) {
 			return // error return
 		}
 		nRet++
@@ -1017,7 +1105,25 @@ func (x *ctx) tokR(g *ssa.Function, pu *parserUse, ctl bool) {
 
 // emptyPieceGuard: the parser compares piece 1 of a '/' split with "".
 func emptyPieceGuard(g *ssa.Function) bool {
+	return emptyPieceGuardIn(g, 0, map[*ssa.Function]bool{})
+}
+
+func emptyPieceGuardIn(g *ssa.Function, depth int, seen map[*ssa.Function]bool) bool {
+	if seen[g] || depth > 3 {
+		return false
+	}
+	seen[g] = true
 	found := false
+	liveInstrs(g, func(in ssa.Instruction) {
+		if c, ok := in.(*ssa.Call); ok && !found {
+			if h := c.Call.StaticCallee(); h != nil && h.Blocks != nil && h.Pkg == g.Pkg && emptyPieceGuardIn(h, depth+1, seen) {
+				found = true
+			}
+		}
+	})
+	if found {
+		return true
+	}
 	liveInstrs(g, func(in ssa.Instruction) {
 		b, ok := in.(*ssa.BinOp)
 		if !ok || (b.Op != token.EQL && b.Op != token.NEQ) {
